@@ -199,6 +199,7 @@ class World:
         self.nupd = {}
         self.fid_registry = {}  # sha -> canonical id of a fractions array
         self.fids = {}  # mineral -> list of canonical ids parallel to .fractions
+        self.seed = {}  # mineral -> seed it was constructed with (None when built by from_file)
         self.rate = rate
         self.F0 = np.eye(3) if F0 is None else np.asarray(F0, dtype=float)   # deformation gradient the client starts from
         self.dt = (dt if dt is not None else DT) / rate
@@ -259,6 +260,7 @@ class World:
         m = pd.Mineral(phase=c["phase"], fabric=c["fabric"], regime=c["regime"], n_grains=n, seed=act["seed"], **kw)
         name = act["m"]
         self.minerals[name] = m
+        self.seed[name] = act["seed"]
         self.F[name] = self.F0.copy()
         self.Fexp[name] = self.F0.copy()
         self.t[name] = 0.0
@@ -397,6 +399,7 @@ class World:
         k = act["k"]
         name = act["m"]
         self.minerals[name] = self.pydrex.Mineral.from_file(self.file(act["f"]), postfix=None if k == "none" else k)
+        self.seed[name] = None
         self.F[name] = np.eye(3)
         self.Fexp[name] = np.eye(3)
         self.t[name] = 0.0
@@ -571,6 +574,23 @@ class Comparator:
                 prop = "C17" if a in ("Load", "FromFile") else ("C01" if a == "Create" else "C08")
                 self.bind(self.omap, s["o"], i["o"], prop, "content-function-o", dict(m=name, snap=k, **ctx))
                 self.bind(self.fmap, s["f"], i["f"], prop, "content-function-f", dict(m=name, snap=k, **ctx))
+        # the equality operator agrees with the abstract state (extension of the twins clause): two minerals
+        # with the same configuration, the same construction seed and the same history terms compare equal;
+        # minerals whose configurations differ compare unequal
+        live = [n for n, c in spec["cfg"].items() if isinstance(c, dict) and n in world.minerals]
+        for i, n1 in enumerate(live):
+            for n2 in live[i + 1:]:
+                try:
+                    eq = bool(world.minerals[n1] == world.minerals[n2])
+                except Exception as e:  # noqa: BLE001
+                    self.bad("C08", "equality-operator-raised", m=[n1, n2], exc=repr(e)[:100], **ctx)
+                    continue
+                same_cfg = spec["cfg"][n1] == spec["cfg"][n2]
+                same = same_cfg and spec["hist"][n1] == spec["hist"][n2] and world.seed.get(n1) == world.seed.get(n2)
+                if same and not eq:
+                    self.bad("C08", "equality-operator", m=[n1, n2], expected=True, got=eq, **ctx)
+                elif not same_cfg and eq:
+                    self.bad("C08", "equality-operator", m=[n1, n2], expected=False, got=eq, **ctx)
         # disk
         for f, recs in spec["disk"].items():
             irecs = impl["disk"].get(f, {})
